@@ -328,6 +328,22 @@ func genC14Plan(r *zsim.Rng) *sysPlan {
 			p.Events = append(p.Events, sysEvent{Kind: "keys", Keys: pick(r, "a", "b", "bspace", "up", "down", "tab"), DelayMs: genDelay(r)})
 		}
 	}
+	// Targeted mode: events bound to result/load/focus keep arriving (input still streaming) while a long
+	// foreground command runs - the queue of pending events is small.
+	if r.Chance(1, 6) {
+		p.Args = append(p.Args, "--bind", pick(r, "result", "focus", "load")+":"+pick(r, "change-prompt(p> )", "first", "execute-silent(EX 4)"))
+		p.Args = append(p.Args, "--bind", "alt-a:execute(EX 1)", "--bind", "alt-b:execute-silent(EX 2)")
+		p.Lines.N = r.Range(400, 3000)
+		p.Reads = []int{r.Range(20, 200)}
+		p.GapsMs = []int{[]int{20, 60, 150}[r.Intn(3)]}
+		p.HoldOpen = false
+		p.Procs = []procSpec{{DelaysMs: []int{r.Range(1500, 6000)}, Text: "done\n"}}
+		pre := []sysEvent{{Kind: "keys", Keys: pick(r, "alt-a", "alt-b"), DelayMs: r.Range(50, 400)}}
+		for i := r.Intn(6); i > 0; i-- {
+			pre = append(pre, sysEvent{Kind: "keys", Keys: pick(r, "a", "b", "bspace", "down"), DelayMs: r.Range(50, 800)})
+		}
+		p.Events = append(pre, p.Events...)
+	}
 	// how the session ends
 	end := sysEvent{Kind: "keys", DelayMs: genDelay(r)}
 	switch r.Intn(9) {
